@@ -29,11 +29,17 @@ class Real:
         sp = sym_params or {}
 
         def val(tok):
-            return sp[tok] if tok in sp else pv[tok]
+            if tok in sp:
+                return sp[tok]
+            if tok in pv:
+                return pv[tok]
+            # parameters of elements that are replaced before the network is used
+            return {"L": 1.0, "rho_max": 180.0, "rho_crit": 33.0, "v_free": 100.0, "a": 1.8,
+                    "turnrate": 1.0, "alpha": 0.1}.get(tok.split(".")[-1], 2000.0)
 
         self.nodes = {}
         self.links = {}
-        for l, v in net.links.items():
+        for l, v in list(net.links.items()) + list(getattr(net, 'x_links', {}).items()):
             kw = dict(nb_segments=v["N"], lanes=v["lanes"], length=val(f"lp.{l}.L"),
                       maximum_density=val(f"lp.{l}.rho_max"),
                       critical_density=val(f"lp.{l}.rho_crit"),
@@ -45,7 +51,7 @@ class Real:
                 self.links[l] = LinkWithVsl(segments_with_vsl=set(v["vsl"]),
                                             alpha=val(f"lp.{l}.alpha"), **kw)
         self.origins = {}
-        for o, k in net.origins.items():
+        for o, k in list(net.origins.items()) + list(getattr(net, 'x_origins', {}).items()):
             nm = names.get(("o", o), f"O{o}")
             if k == "ideal":
                 self.origins[o] = Origin(name=nm)
@@ -57,14 +63,16 @@ class Real:
                 self.origins[o] = SimplifiedMeteredOnRamp(
                     val(f"C.{o}"), flow_eq_type="limited" if k == "simp_lim" else "unlimited", name=nm)
         self.dests = {}
-        for d, k in net.dests.items():
+        for d, k in list(net.dests.items()) + list(getattr(net, 'x_dests', {}).items()):
             nm = names.get(("d", d), f"D{d}")
             self.dests[d] = Destination(name=nm) if k == "free" else CongestedDestination(name=nm)
         self.net = Network()
         for op in net.ops:
             if reads is not None and reads.random() < 0.5:
                 self.touch()
-            if op[0] == "node":
+            if op[0] == "use":
+                self.touch()
+            elif op[0] == "node":
                 self.net.add_node(self.node(op[1], names))
             elif op[0] == "link":
                 self.net.add_link(self.node(op[1], names), self.links[op[2]], self.node(op[3], names))
@@ -84,9 +92,18 @@ class Real:
             getattr(n, attr)
         list(n.elements)
         try:
-            n.is_valid()
+            ok = n.is_valid()[0]
         except Exception:
-            pass
+            ok = False
+        if ok:
+            # the network is (already) valid: step it on both engines; whatever is computed or
+            # memoised now must not leak into the steps taken after the construction continues
+            for eng in (NpEngine("rand"), CsEngine("SX")):
+                try:
+                    with np.errstate(all="ignore"):
+                        n.step(engine=eng, T=0.01, tau=0.005, eta=60.0, kappa=40.0, delta=0.01, phi=1.0)
+                except Exception:
+                    pass
 
     def node(self, n, names):
         if n not in self.nodes:
